@@ -233,6 +233,8 @@ void profile_mesh(const json& plan, Ctx& ctx) {
 			// the save follows an unobserved deletion: no query before it
 			SaveSpec sp;
 			sp.raw = jstr(st, "save", "raw") == "raw";
+			std::vector<std::string> namesBefore;
+			for (auto sh : w.nif->GetShapes()) namesBefore.push_back(sh->name.get());
 			SaveOut so = saveNif(*w.nif, sp);
 			ctx.hist.str(so.bytes);
 			if (so.rc != 0) ctx.viol("restart:save-failed", where + ": Save returned " + std::to_string(so.rc));
@@ -243,6 +245,17 @@ void profile_mesh(const json& plan, Ctx& ctx) {
 			ctx.fault("F-RESTART");
 			ctx.sig.tag("restart-unobserved");
 			auto rs = w.nif->GetShapes();
+			{
+				std::vector<std::string> namesAfter;
+				for (auto sh : rs) namesAfter.push_back(sh->name.get());
+				if (namesAfter != namesBefore) {
+					for (size_t k = 0; k < namesAfter.size(); k++) { pf.coverInvalid[k] = true; pf.notRebuilt[k] = true; }
+					segx.active = false;
+					partExpect.clear();
+					blindWant.clear();
+					ctx.probe("shape_order_changed_by_restart");
+				}
+			}
 			for (auto& kv : blindWant) {
 				if (kv.first >= rs.size()) { ctx.viol("restart:shape-count", where + ": shape " + std::to_string(kv.first) + " is missing after reload"); continue; }
 				ShapeSnap got = snapShape(*w.nif, rs[kv.first]);
@@ -269,6 +282,8 @@ void profile_mesh(const json& plan, Ctx& ctx) {
 		}
 		else if (op == "Restart") {
 			bool raw = jstr(st, "save", "raw") == "raw";
+			std::vector<std::string> namesBefore;
+			for (auto sh : w.nif->GetShapes()) namesBefore.push_back(sh->name.get());
 			std::vector<ShapeSnap> before = snapAll(*w.nif);
 			SaveSpec sp;
 			sp.raw = raw;
@@ -289,12 +304,25 @@ void profile_mesh(const json& plan, Ctx& ctx) {
 			w.nif = std::move(fresh);
 			ctx.fault("F-RESTART");
 			ctx.sig.tag("restart");
+			{
+				// a sorting save may bring the shapes into another order: everything this profile remembers per shape index is
+				// then withdrawn rather than applied to the wrong shape
+				std::vector<std::string> namesAfter;
+				for (auto sh : w.nif->GetShapes()) namesAfter.push_back(sh->name.get());
+				if (namesAfter != namesBefore) {
+					for (size_t k = 0; k < namesAfter.size(); k++) { pf.coverInvalid[k] = true; pf.notRebuilt[k] = true; }
+					segx.active = false;
+					partExpect.clear();
+					before.clear();
+					ctx.probe("shape_order_changed_by_restart");
+				}
+			}
 			std::vector<ShapeSnap> after = snapAll(*w.nif);
 			if (prop_is(ctx, "C09")) {
 				if (!raw) {
 					// default save may reorder blocks: match shapes by name when names are unique
 				}
-				if (after.size() != before.size()) ctx.viol("restart:shape-count", where + ": " + std::to_string(after.size()) + " shapes after reload, " + std::to_string(before.size()) + " before");
+				if (!before.empty() && after.size() != before.size()) ctx.viol("restart:shape-count", where + ": " + std::to_string(after.size()) + " shapes after reload, " + std::to_string(before.size()) + " before");
 				for (size_t i = 0; i < before.size(); i++) {
 					if (before[i].nv == 0 || (!before[i].isStrips && before[i].tris.empty())) continue; // emptied shape: the caller is told to delete it
 					bool sseSkinned = before[i].skinned && w.nif->GetHeader().GetVersion().IsSSE();
